@@ -1,5 +1,6 @@
 """C15 — rounding reconstructs; hints recover exactly the signer's high bits."""
 ID = "C15"
+SPEC_ORACLE = ['rounding']   # specification definitions used by Props/C15.lean are compared with hashlib / pyspec on every run
 Q = 8380417
 G = {"lvl2": 95232, "lvl3": 261888, "lvl5": 261888}
 M = {"lvl2": 44, "lvl3": 16, "lvl5": 16}
